@@ -52,8 +52,10 @@ ASSUMPTIONS = [
     "the batched backend's update_callback may suspend (0, 2 or 6 ms of transmission): PlatformBatchLightSystem "
     "awaits it, so a platform is allowed to; the callbacks of the platforms shipped in this tree happen to never "
     "suspend, hence C09:batch_update_lost_while_transmitting is latent for them",
-    "the machine-wide brightness factor is set once before the history; changing it later does not re-send lights and "
-    "the statement does not say it should",
+    "the machine-wide brightness setting is changed during the history (machine variable and operator setting); mpf "
+    "applies the factor when a colour is written to a channel and does not re-send lit lights on a brightness change, "
+    "and the statement does not say it should: each channel is judged with the brightness that was set when mpf last "
+    "wrote to that channel (a write in the same virtual instant as a change may use the value before or after it)",
     "Light.color(start_time=...) (show synchronisation) is not used: every command starts now",
 ]
 HORIZONS = {"rest_settle_s": 2.0, "rest_recheck_s": 5.0}
@@ -63,9 +65,9 @@ TIERS = {
 }
 MIN_EVALS = {
     "quick": {"logical_static": 40000, "logical_fade": 10000, "remove_restore": 1500, "hw_rest": 20000,
-              "hw_off_when_empty": 3000},
+              "hw_off_when_empty": 3000, "hw_rest_rebrightened": 3000},
     "thorough": {"logical_static": 1200000, "logical_fade": 300000, "remove_restore": 40000, "hw_rest": 600000,
-                 "hw_off_when_empty": 100000},
+                 "hw_off_when_empty": 100000, "hw_rest_rebrightened": 100000},
 }
 SHRINK_KEYS = ["ops"]
 
@@ -76,6 +78,8 @@ PRIOS = [0, 0, 1, 2, 5]
 FADES = [None, 0, 0, 1, 20, 50, 100, 333, 1000, 2500]
 GAPS_MS = [0, 0, 1, 2, 5, 10, 19, 20, 21, 50, 100, 250, 500, 999, 1000, 1001, 2000]
 BACKENDS = ["virtual", "sw", "sw", "direct", "batch", "batch", "batch", "coil"]
+BRIGHTNESS = [1.0, 0.8, 0.5, 0.25, 0.75, 0.5]
+SETTING_VALUES = (0.25, 0.5, 0.75, 1.0)
 TOL_T = 1e-9
 
 
@@ -154,6 +158,8 @@ def gen_case(rng, tier, index):
             last_fade = fade
         elif k < 0.71:
             ops.append(["lp_clear", rng.choice(["cx", "cy"])])
+        elif k < 0.77:
+            ops.append(["bright", rng.choice(BRIGHTNESS), rng.choice(["var", "setting", "setting"])])
         elif k < 0.94:
             g = rng.choice(GAPS_MS)
             if rng.random() < 0.1:
@@ -386,11 +392,14 @@ def run_case(case):
 
     cfg = case["cfg"]
     ops = case["ops"]
-    clauses = {"logical_static": 0, "logical_fade": 0, "remove_restore": 0, "hw_rest": 0, "hw_off_when_empty": 0}
+    clauses = {"logical_static": 0, "logical_fade": 0, "remove_restore": 0, "hw_rest": 0, "hw_off_when_empty": 0,
+               "hw_rest_rebrightened": 0}
+    factors = [(-1.0, 1.0)]      # history of the brightness SETTING as issued by this harness: (t, value)
     viol = []
     obs = {"api_calls": 0, "color_calls": 0, "remove_calls": 0, "ignored_lower_priority": 0, "cmds_inside_fade": 0,
            "fadeouts": 0, "rest_points": 0, "coincident_expiry_ops": 0, "hidden_cmds": 0, "start_snaps": 0,
-           "lp_calls": 0, "batch_cmds_during_tx": 0}
+           "lp_calls": 0, "batch_cmds_during_tx": 0,
+           "brightness_changes": 0, "same_instant_brightness_writes": 0}
     shape = []
     seen_sigs = set()
 
@@ -579,7 +588,6 @@ def run_case(case):
         vm = state["vm"]
         t = now()
         obs["rest_points"] += 1
-        factor = cfg["brightness"]      # the configured machine brightness, not mpf's copy of it
         for name, ml in models.items():
             light = vm.machine.lights[name]
             ml.prune(t, set())
@@ -594,19 +602,37 @@ def run_case(case):
                 table = prof._lookup_table      # trusted base (rgb_color.py is outside the anchors)
             colors = [k[1] for k in rec.chans if k[0] == name]
             style = cfg["rgbw"] if sorted(colors) == ["blue", "green", "red", "white"] else None
-            exp = _expected_channels(rgb, factor, table, colors, style)
             for color in colors:
                 ch = rec.chans[(name, color)]
                 v, fading = ch.value_at(t)
+                # brightness that was SET (by this harness, not mpf's copy) when mpf last wrote to this channel
+                t_w = ch.set_fades[-1][0] if ch.set_fades else t
+                before = [f for tc, f in factors if tc < t_w - TOL_T]
+                same = [f for tc, f in factors if abs(tc - t_w) <= TOL_T]
+                accept = before[-1:] + same
+                if same:
+                    obs["same_instant_brightness_writes"] += 1
+                factor = accept[-1]
+                exps = [_expected_channels(rgb, f, table, colors, style)[color] for f in accept]
+                exp = {color: exps[-1]}
                 clauses["hw_rest"] += 1
                 if not ml.st:
                     clauses["hw_off_when_empty"] += 1
-                if fading or abs(v - exp[color]) > 1e-9:
+                if len(before) >= 3 and ch.set_fades:
+                    clauses["hw_rest_rebrightened"] += 1     # written after the 2nd (or later) change of the session
+                if fading or all(abs(v - x) > 1e-9 for x in exps):
                     sig = classify_hw(ch, t, fading)
+                    if not fading and sig.startswith("C09:hw_rest_mismatch_"):
+                        older = [f for _, f in factors if f not in accept]
+                        if any(abs(v - _expected_channels(rgb, f, table, colors, style)[color]) <= 1e-9
+                               for f in older):
+                            sig = "C09:hw_written_with_stale_brightness_factor"
                     clause = "hw_off_when_empty" if not ml.st else "hw_rest"
                     V(clause, sig, light=name, backend=ch.backend, channel=color, t=round(t, 6), rest=tag,
                       hw=v, expected=exp[color], logical=list(rgb), still_fading=fading,
-                      brightness_factor=factor, profile=L["profile"], rgbw_style=style,
+                      brightness_factor=factor, brightness_accepted=accept, brightness_history=factors[-5:],
+                      mpf_brightness_factor=vm.machine.light_controller.brightness_factor,
+                      profile=L["profile"], rgbw_style=style,
                       last_set_fades=[list(x) for x in ch.set_fades[-3:]],
                       last_leaf_cmds=[list(x) for x in ch.log[-4:]], latest_serial=ch.serial,
                       batch=cfg["batch"] if ch.backend == "batch" else None,
@@ -630,6 +656,7 @@ def run_case(case):
                 rec.now = vm.loop.time
                 c09_hw.register_coil_lights(rec, m, spec)
                 if cfg["brightness"] != 1.0:
+                    factors.append((vm.loop.time(), cfg["brightness"]))
                     m.variables.set_machine_var("brightness", cfg["brightness"])
                 vm.advance(0.05)
                 for L in cfg["lights"]:
@@ -675,6 +702,15 @@ def run_case(case):
                             m.light_player.play({light: {"color": op[4], "fade": op[5], "priority": op[6]}},
                                                 op[2], None, priority=0, key=op[3])
                             shape.append("p" + _bucket(op[5]))
+                        elif kind == "bright":
+                            value = float(op[1])
+                            obs["brightness_changes"] += 1
+                            factors.append((now(), value))
+                            if op[2] == "setting" and value in SETTING_VALUES:
+                                m.settings.set_setting_value("brightness", value)
+                            else:
+                                m.variables.set_machine_var("brightness", value)
+                            shape.append("B")
                         elif kind == "lp_clear":
                             obs["lp_calls"] += 1
                             m.light_player.clear_context(op[1])
